@@ -173,6 +173,9 @@ func init() {
 			"documented differences only: the tag naming the key, string-typed leaves for form/query/env, whitespace trimming for env; nil and empty lists are not expressible in flat sources and are rendered as missing / skipped; lists of several values are not expressible in the environment",
 			"known findings D18 / D24 are matched by the as-is model with quirk switches",
 		},
-		Items: func(tier string) []Item { return c10Items(tier, c14Scenario) },
+		Items: func(tier string) []Item {
+			items := c10Items(tier, c14Scenario)
+			return append(items, Item{Name: "same-named-leaves-in-record-and-parent", MaxDevs: -1, Run: c14SameNamesScenario})
+		},
 	})
 }
